@@ -552,6 +552,13 @@ func genTree(r *Rng, o treeOpts) *GenTree {
 		}
 		t.Layers = append(t.Layers, l)
 	}
+	if hasDir(o, "crds") {
+		// a `crds:` file in the innermost layer: the CRD loader (accumulator.makeConfigFromApiMap / loadCrdIntoConfig)
+		// ranges over Go maps of definitions and properties; what it derives (label-selector, annotation and
+		// name-reference field specs for the custom kinds) must not depend on the iteration order
+		t.Layers[0].Files["crd.json"] = crdJSON01
+		t.Layers[0].Kust["crds"] = []interface{}{"crd.json"}
+	}
 	if hasDir(o, "vars") && len(t.Resources) > 0 {
 		// one well-defined variable in the top layer (never referenced): with `vars:` present the variable expander
 		// runs over every varReference path; text that is no reference must pass through unchanged
@@ -565,6 +572,35 @@ func genTree(r *Rng, o treeOpts) *GenTree {
 	}
 	return t
 }
+
+// crdJSON01: OpenAPI definitions for the custom kinds of the generator (MyKind, Widget), several extension
+// properties each so that the loader's map iteration has something to permute.
+const crdJSON01 = `{
+ "example.com/v1.MyKind": {"Schema": {"properties": {
+   "apiVersion": {"type": "string"}, "kind": {"type": "string"}, "metadata": {"type": "object"},
+   "spec": {"$ref": "example.com/v1.MyKindSpec"}}}},
+ "example.com/v1.MyKindSpec": {"Schema": {"properties": {
+   "selector": {"type": "object", "x-kubernetes-label-selector": ""},
+   "nested": {"type": "object", "x-kubernetes-annotation": ""},
+   "extra": {"type": "object", "x-kubernetes-annotation": ""},
+   "cmRef": {"type": "object", "x-kubernetes-object-ref-api-version": "v1", "x-kubernetes-object-ref-kind": "ConfigMap"},
+   "secretRef": {"type": "object", "x-kubernetes-object-ref-api-version": "v1", "x-kubernetes-object-ref-kind": "Secret"},
+   "saRef": {"type": "object", "x-kubernetes-object-ref-api-version": "v1", "x-kubernetes-object-ref-kind": "ServiceAccount", "x-kubernetes-object-ref-name-key": "account"},
+   "free": {"type": "string"}}}},
+ "example.com/v1beta1.Widget": {"Schema": {"properties": {
+   "apiVersion": {"type": "string"}, "kind": {"type": "string"}, "metadata": {"type": "object"},
+   "spec": {"$ref": "example.com/v1beta1.WidgetSpec"}}}},
+ "example.com/v1beta1.WidgetSpec": {"Schema": {"properties": {
+   "selector": {"type": "object", "x-kubernetes-label-selector": ""},
+   "owner": {"type": "object", "x-kubernetes-annotation": ""},
+   "nested": {"type": "object", "x-kubernetes-label-selector": ""},
+   "cmRef": {"type": "object", "x-kubernetes-object-ref-api-version": "v1", "x-kubernetes-object-ref-kind": "ConfigMap"},
+   "tmpl": {"$ref": "example.com/v1beta1.WidgetTmpl"}}}},
+ "example.com/v1beta1.WidgetTmpl": {"Schema": {"properties": {
+   "labels": {"type": "object", "x-kubernetes-label-selector": ""},
+   "secretRef": {"type": "object", "x-kubernetes-object-ref-api-version": "v1", "x-kubernetes-object-ref-kind": "Secret"}}}}
+}
+`
 
 func advStringNoNL(r *Rng) string {
 	for i := 0; i < 20; i++ {
